@@ -77,9 +77,22 @@ func vh_C08_fx_requestReadFrom() {
 	vEmit("err", err != nil)
 }
 
+// vInRecvBuf: the frame as it sits in a reusable receive buffer - a short
+// prefix of a large array with unrelated content behind it, so that capacity
+// and length differ by far (added after seeded change C08-f, which sized an
+// allocation by the buffer's capacity)
+func vInRecvBuf(data []byte) []byte {
+	big := vHavocBytes(1 << 20)
+	copy(big, data)
+	return big[:len(data)]
+}
+
 func vh_C08_fx_responses() {
 	data := vNondetBytesC(vN())
 	vConsumed(len(data))
+	if vNondetBool() {
+		data = vInRecvBuf(data)
+	}
 	switch vChoice(7) {
 	case 0:
 		var p StatusPacket
